@@ -61,6 +61,9 @@ for rel, tmpl in targets.items():
             if s_.endswith(';') and not s_.startswith('let ') and not s_.startswith('return') and not s_.startswith('//') and '{' not in s_ and '}' not in s_:
                 mutants.append((rel, tmpl, fname, off, off + len(ln), '', 'delete `%s`' % s_[:60]))
             off += len(ln) + 1
+only = next((a.split('=')[1].split(',') for a in sys.argv if a.startswith('--only=')), None)
+if only:
+    mutants = [m_ for m_ in mutants if any(m_[2] == o or m_[2].endswith('::' + o) for o in only)]
 maxn = int(next((a.split('=')[1] for a in sys.argv if a.startswith('--max=')), 10 ** 6))
 print('%d candidate mutants' % len(mutants), flush=True)
 res = []
@@ -85,7 +88,7 @@ for i, (rel, tmpl, fname, a, b, rep, desc) in enumerate(mutants[:maxn]):
     res.append({'file': rel, 'line': line, 'function': fname, 'mutation': desc, 'verdict': verdict,
                 'failed': sorted({'%s:%s' % (f['function'], f['kind']) for f in r['failures']})[:4]})
     print('%s:%d %s | %s | %s' % (rel, line, fname, desc, verdict), flush=True)
-json.dump(res, open(os.path.join(HERE, '.work', 'auto_mutate.json'), 'w'), indent=1)
+json.dump(res, open(os.path.join(HERE, '.work', 'auto_mutate%s.json' % ('_' + '_'.join(only) if only else '')), 'w'), indent=1)
 tot = len(res)
 print('compiling mutants: %d, rejected %d, undecided %d, survived %d (%.0fs)' % (tot, sum(r['verdict'] == 'rejected' for r in res),
       sum(r['verdict'].startswith('undecided') for r in res), sum(r['verdict'] == 'SURVIVED' for r in res), time.time() - t0))
